@@ -27,9 +27,26 @@ impl TfmToPlErrorMessage {
 ///
 /// This algorithm converts a .pl string to .tfm bytes.
 pub fn pl_to_tfm(pl_data: &str) -> (Vec<u8>, Vec<crate::pl::ParseWarning>) {
-    let (pl_file, warnings) = crate::pl::File::from_pl_source_code(pl_data);
-    let tfm_file: crate::File = pl_file.into();
-    let tfm_output: Vec<u8> = tfm_file.serialize();
+    let (pl_file, mut warnings) = crate::pl::File::from_pl_source_code(pl_data);
+    let mut tfm_file: crate::File = pl_file.into();
+    let mut tfm_output: Vec<u8> = tfm_file.serialize();
+    // A .tfm file contains at most i16::MAX words; the length of a longer file cannot be
+    // written in its first two bytes and no reader accepts it. The only tables of a font built
+    // from a property list that can get this big are the lig/kern program and its kerns:
+    // the font is written without them.
+    if tfm_output.len() > 4 * (i16::MAX as usize) {
+        tfm_file.lig_kern_program = Default::default();
+        tfm_file.kerns = vec![];
+        tfm_file
+            .char_tags
+            .retain(|_, tag| !matches!(tag, crate::CharTag::Ligature(_)));
+        warnings.push(crate::pl::ParseWarning {
+            span: 0..0,
+            knuth_pltotf_offset: None,
+            kind: crate::pl::ParseWarningKind::LigTableIsTooBig,
+        });
+        tfm_output = tfm_file.serialize();
+    }
     (tfm_output, warnings)
 }
 
